@@ -259,6 +259,19 @@ def check(ctx):
                 ctx.violation("arith-paren:" + mini, mini, ans, real_answer(r_min), how)
         cases.append(("aexp " + sexpr(t), ans, dict(text=full, want=want[0])))
 
+    # --- "however large the numbers get": the bases whose powers do not grow (1, -1, 0 — written or computed, int or fraction)
+    # under exponents far beyond anything that could be multiplied out
+    for btxt, bval in [("1", 1), ("(-1)", -1), ("0", 0), ("(3/3)", 1), ("(7 % -2)", -1), ("(5-5)", 0), ("(1/2 - 3/2)", -1), ("(2/4*2)", 1)]:
+        for etxt, ev in [("134217729", 2**27 + 1), ("(10^9+1)", 10**9 + 1), ("(10^100)", 10**100), ("(10^100+1)", 10**100 + 1), ("2^64", 2**64), ("4000000001", 4000000001)]:
+            for wrap, f in [("%s", lambda v: Fraction(v)), ("%s * 7/3", lambda v: Fraction(v) * 7 / 3), ("5 - %s", lambda v: 5 - Fraction(v))]:
+                txt = wrap % ("%s^%s" % (btxt, etxt))
+                q = f(bval if ev % 2 else abs(bval))
+                exp = "ok " + num_canon(q.numerator if q.denominator == 1 else q)
+                a = real_answer(real.value(txt, timeout=10.0))
+                ctx.count(txt, bucket="special-base-huge-exponent")
+                if a != exp:
+                    ctx.violation("arith:" + txt, txt, exp, a, "execute(%r)" % txt)
+
     def agree(real_ans, model_ans, info):
         m = model_ans.split(" | ")[0]
         if real_ans == m:
